@@ -106,6 +106,10 @@ def write_locked(path, settle=4.0):
 
 
 # ------------------------------------------------------------------ the real server
+def garbled(r):
+    return r.status == 400 and ("unexpected end of JSON input" in r.body or "unexpected EOF" in r.body)
+
+
 class World:
     def __init__(self, sd, ego, nworkers):
         self.sd, self.n = sd, nworkers
@@ -118,8 +122,11 @@ class World:
             c.execute(s)
         c.commit()
         c.close()
+        # generous transport timeouts: on a loaded machine the server's default 30 s read timeout cuts request bodies short
         self.srv = egosrv.Server(sd, ego, users={"admin": ("secret", ["ego.root", "ego.logon"])},
-                                 env={"VERIF_DB_EVENTS": self.events})
+                                 env={"VERIF_DB_EVENTS": self.events},
+                                 settings={"ego.server.read.timeout": "900s", "ego.server.read.header.timeout": "900s",
+                                           "ego.server.write.timeout": "900s"})
 
     def start(self):
         self.srv.start(wait=180)
@@ -140,10 +147,14 @@ class World:
         self.mkdsn("c17nodir", os.path.join(self.sd, "no-such-dir", "x.db"))
 
     def mkdsn(self, name, database):
-        r = self.srv.req("POST", "/dsns/", {"name": name, "provider": "sqlite", "database": database, "restricted": False},
-                         token=self.tok, timeout=240)
-        if r.status != 201:
-            raise vf.NoVerdict("cannot create DSN %s: %r" % (name, r))
+        for attempt in range(3):
+            r = self.srv.req("POST", "/dsns/", {"name": name, "provider": "sqlite", "database": database, "restricted": False},
+                             token=self.tok, timeout=240)
+            if r.status == 201:
+                return
+            if not garbled(r):
+                break
+        raise vf.NoVerdict("cannot create DSN %s: %r" % (name, r))
 
     def path(self, w):
         return os.path.join(self.dbdir, "w%d.db" % w)
@@ -157,7 +168,13 @@ class World:
         return p
 
     def tx(self, dsn, tasks):
-        return self.srv.req("POST", "/dsns/%s/tables/@transaction" % dsn, tasks, token=self.tok, timeout=240)
+        """One @transaction request.  The body is always a well-formed JSON array, so a JSON decode complaint means the
+        body did not arrive (transport timeout under load): nothing was opened, the request is sent again."""
+        for attempt in range(4):
+            r = self.srv.req("POST", "/dsns/%s/tables/@transaction" % dsn, tasks, token=self.tok, timeout=240)
+            if not garbled(r):
+                return r
+        raise vf.NoVerdict("request bodies keep arriving truncated: %r" % r)
 
     def one(self, w, b, follow):
         """Run one behaviour on worker w's DSN; returns what really happened (projection only)."""
@@ -302,9 +319,9 @@ def run():
                ("MC len<=3, pruned after the first failure", "Transaction_MC3.cfg"),
                ("liveness: every request is answered", "Transaction_Live.cfg")] if thorough else \
               [("MC len<=2, pruned after the first failure", "Transaction_MCq.cfg")]
-        wk = 6 if thorough else 3
-        futs = [(nm, pool.submit(vf.tlc, SPEC, SPEC, cfg, sd, workers=wk, timeout=2400 if thorough else 900)) for nm, cfg in mcs]
-        negs = [(inv, pool.submit(vf.tlc, SPEC, SPEC, "Transaction_MC_asis_%s.cfg" % tag, sd, workers=1, timeout=400))
+        wk = 6 if thorough else 4
+        futs = [(nm, pool.submit(vf.tlc, SPEC, SPEC, cfg, sd, workers=wk, timeout=3000 if thorough else 1800)) for nm, cfg in mcs]
+        negs = [(inv, pool.submit(vf.tlc, SPEC, SPEC, "Transaction_MC_asis_%s.cfg" % tag, sd, workers=1, timeout=1500))
                 for inv, tag in (("NothingHeld", "held"), ("AllOrNothing", "atomic"))]
 
         # 2. behaviours
@@ -323,7 +340,7 @@ def run():
                 if num is None:
                     return vf.tlc(SPEC, SPEC + "_Gen", cfg, sd, workers=4 if thorough else 1, timeout=2400)
                 return vf.tlc(SPEC, SPEC + "_Gen", cfg, sd, workers=1, simulate="num=%d" % num, depth=4 * L + 12,
-                              seed=vf.SEED * 1000 + L, timeout=900)
+                              seed=vf.SEED * 1000 + L, timeout=1800)
             for (cfg, num, L), r in zip(gens, ThreadPoolExecutor(max_workers=3).map(gen, gens)):
                 if r.violated or r.error or r.rc != 0:
                     raise vf.NoVerdict("behaviour generation %s failed: %s %s\n%s" % (cfg, r.violated, r.error, r.stdout[-2000:]))
